@@ -10,6 +10,7 @@ package dot
 //@     && dg.Failed.ctors != nil && dg.Failed.groups != nil && (forall id CtorID :: id in dg.ctorMap ==> dg.ctorMap[id] != nil)
 //@     && (forall k nodeKey :: k in dg.groupMap ==> dg.groupMap[k] != nil && allocated(dg.groupMap[k]) && dg.groupMap[k].Results.arr <= $alloc)
 //@     && (forall i int :: 0 <= i && i < len(dg.Ctors) ==> dg.Ctors[i] != nil) && (forall i int :: 0 <= i && i < len(dg.Groups) ==> dg.Groups[i] != nil) && dg.Groups.arr <= $alloc
+//@     && (cap(dg.Failed.RootCauses) == 0 || cap(dg.Failed.TransitiveFailures) == 0 || dg.Failed.RootCauses.arr != dg.Failed.TransitiveFailures.arr) && len(dg.Failed.RootCauses) <= cap(dg.Failed.RootCauses) && len(dg.Failed.TransitiveFailures) <= cap(dg.Failed.TransitiveFailures) && dg.Failed.RootCauses.arr <= $alloc && dg.Failed.TransitiveFailures.arr <= $alloc
 //@     && (forall k nodeKey :: k in dg.consumers ==> dg.consumers[k].arr != dg.Ctors.arr && dg.consumers[k].arr <= $alloc && dg.consumers[k].arr > 0) && dg.Ctors.arr <= $alloc
 
 // every result drawn in a cluster exists and has its node; the lists of failed
@@ -41,6 +42,9 @@ package dot
 //@   ensures[C19:a-later-failure-joins-the-transitive-failures] !isRootCause ==> len(dg.Failed.TransitiveFailures) == old(len(dg.Failed.TransitiveFailures)) + 1
 //@        && dg.Failed.TransitiveFailures[len(dg.Failed.TransitiveFailures) - 1] == r && dg.Failed.RootCauses == old(dg.Failed.RootCauses)
 //@   ensures forall f *FailedNodes :: existed(f) && f != dg.Failed ==> f.RootCauses == old(f.RootCauses) && f.TransitiveFailures == old(f.TransitiveFailures)
+//@   ensures graphOK(dg)
+//@   ensures[C19:earlier-root-causes-stay-recorded] forall i int :: 0 <= i && i < old(len(dg.Failed.RootCauses)) ==> dg.Failed.RootCauses[i] == old(dg.Failed.RootCauses[i])
+//@   ensures[C19:earlier-transitive-failures-stay-recorded] forall i int :: 0 <= i && i < old(len(dg.Failed.TransitiveFailures)) ==> dg.Failed.TransitiveFailures[i] == old(dg.Failed.TransitiveFailures[i])
 //@   ensures[C19:recording-a-failure-writes-only-the-failure-list] isRootCause ? keptExcept(old(dg.Failed.RootCauses).arr, elems(ptr(Result))) : keptExcept(old(dg.Failed.TransitiveFailures).arr, elems(ptr(Result)))
 //@   ensures[C19:the-failure-list-grows-in-place-or-moves-to-new-storage] (dg.Failed.RootCauses.arr == old(dg.Failed.RootCauses).arr || fresh(dg.Failed.RootCauses)) && (dg.Failed.TransitiveFailures.arr == old(dg.Failed.TransitiveFailures).arr || fresh(dg.Failed.TransitiveFailures))
 
@@ -98,6 +102,7 @@ package dot
 //@   let first = old(len(dg.Failed.RootCauses) == 0)
 //@   ensures[C19:failed-group-member-constructor-is-coloured-by-order-of-failure] old(id in dg.ctorMap) ==> id in dg.Failed.ctors && dg.ctorMap[id].ErrorType == (first ? rootCause : transitiveFailure)
 //@        && ret(getGroup_1, 0).ErrorType == (first ? rootCause : transitiveFailure)
+//@   site call (*dot.Graph).failNode #1: assert[C19:only-members-of-the-failed-group-are-marked] $arg0.Node.Type == t && $arg0.Node.Group == name
 //@   ensures[C19:unknown-constructor-fails-nothing] !old(id in dg.ctorMap) ==> kept(Ctor.ErrorType, Group.ErrorType, FailedNodes.RootCauses, FailedNodes.TransitiveFailures)
 //@   loop range dg.ctorMap[id].Results #1: complete[C19:every-result-of-the-failed-constructor-examined]
 //@   loop range dg.ctorMap[id].Results #1: invariant graphOK(dg) && kept(Ctor.ErrorType, Group.ErrorType, map(Graph.ctorMap), Ctor.Results) && id in dg.Failed.ctors
@@ -214,3 +219,23 @@ package dot
 //@   loop range dg.Groups #1: invariant (cap(pruned) == 0 || fresh(pruned)) && dg.Groups == old(dg.Groups) && kept(Group.Type, Group.Name)
 //@        && (forall i int :: 0 <= i && i < len(dg.Groups) ==> dg.Groups[i] == old(dg.Groups[i]) && dg.Groups[i] != nil)
 //@   loop range dg.Groups #1: invariant[C19:kept-groups-so-far-failed] forall j int :: 0 <= j && j < len(pruned) ==> pruned[j] != nil && mk(nodeKey, pruned[j].Type, "", pruned[j].Name) in failed
+
+// Text of a node, of its attributes, of a colour (not verified: string
+// building with fmt; they write nothing and need their node)
+//@ func (p *Param) String() (s)
+//@   trusted
+//@   requires[C14:param-text-needs-its-node] p != nil && p.Node != nil
+//@ func (r *Result) String() (s)
+//@   trusted
+//@   requires[C14:result-text-needs-its-node] r != nil && r.Node != nil
+//@ func (r *Result) Attributes() (s)
+//@   trusted
+//@   requires[C14:result-attributes-need-the-node] r != nil && r.Node != nil
+//@ func (g *Group) String() (s)
+//@   trusted
+//@   requires[C14:group-text-needs-the-group] g != nil
+//@ func (g *Group) Attributes() (s)
+//@   trusted
+//@   requires[C14:group-attributes-need-the-group] g != nil
+//@ func (s ErrorType) Color() (c)
+//@   trusted
